@@ -23,6 +23,7 @@
 #include <fcntl.h>
 #include <unistd.h>
 #include <time.h>
+#include <execinfo.h>
 #include <openssl/evp.h>
 #include <openssl/hmac.h>
 
@@ -560,15 +561,30 @@ void mxd_note_prng(long n)
 extern void __sanitizer_print_stack_trace(void);
 #endif
 static long g_alloc_n = 0, g_fail_at = -1, g_fail_hits = 0;
+/* counting mode (failat -2): the call sites of the allocations (hash of the innermost return addresses), so that a
+   check can fail each SITE at least once instead of sampling allocation indices uniformly */
+#define MAXSITE 4096
+static struct { unsigned long h; long first, last, count; } g_site[MAXSITE];
+static int g_nsite = 0;
+static void note_site(long k)
+{
+    void *bt[7];
+    int n = backtrace(bt, 7), i;
+    unsigned long h = 1469598103934665603UL;
+    for (i = 1; i < n; i++) { h ^= (unsigned long) bt[i]; h *= 1099511628211UL; }
+    for (i = 0; i < g_nsite; i++) if (g_site[i].h == h) { g_site[i].last = k; g_site[i].count++; return; }
+    if (g_nsite < MAXSITE) { g_site[g_nsite].h = h; g_site[g_nsite].first = g_site[g_nsite].last = k; g_site[g_nsite].count = 1; g_nsite++; }
+}
 static int alloc_fails(void)
 {
     long k = g_alloc_n++;
+    if (g_fail_at == -2) note_site(k);
     if (g_fail_at >= 0 && k == g_fail_at)
     {
         ep_t *e = g_cur_cb_ep;
         g_fail_hits++;
 #if defined(__SANITIZE_ADDRESS__)
-        if (g_forkmode) { fprintf(stderr, "FAULT-INJECTED\n"); __sanitizer_print_stack_trace(); fprintf(stderr, "FAULT-END\n"); }
+        if (g_forkmode || getenv("MXV_FAULT_STACK")) { fprintf(stderr, "FAULT-INJECTED\n"); __sanitizer_print_stack_trace(); fprintf(stderr, "FAULT-END\n"); }
 #endif
         if (e && e->used) sb_printf(&e->sub, "%s{\"k\":\"F\",\"t\":\"alloc\",\"x\":0,\"n\":%ld,\"q\":0,\"qh\":0,\"w\":0,\"bs\":0}", e->sub.n ? "," : "", k);
         return 1;
@@ -2222,6 +2238,14 @@ static void run_line(char *line)
 #endif
             if (leak) g_leak_seen = 1;
             sb_printf(&g_out, ",\"leak\":%d,\"allocs\":%ld,\"hits\":%ld", leak, g_alloc_n, g_fail_hits);
+            if (g_nsite)
+            {
+                int si;
+                sb_printf(&g_out, ",\"sites\":[");
+                for (si = 0; si < g_nsite; si++) sb_printf(&g_out, "%s[%ld,%ld,%ld]", si ? "," : "", g_site[si].first, g_site[si].last, g_site[si].count);
+                sb_printf(&g_out, "]");
+                g_nsite = 0;
+            }
             g_fail_at = -1;
         }
         emit_end(&g_out);
